@@ -6,7 +6,7 @@ from sa import AnalysisError
 from sa.kinds import (key, utext, call_name, recv_text, calls_in, node_calls, all_stores, all_mutator_calls,
                       store_targets, canon_compare, oriented)
 from sa.cfg import walk_calls, walk_nodes
-from sa.astutil import canon_text as ct
+from sa.astutil import canon_text as ct, gp
 
 EXPLANATION = (
     "Decided part of C04. The sum identity is definitional (size_remaining is derived), so the content is that "
@@ -174,7 +174,7 @@ def run(ctx, rep):
         gs = [(utext(g.exprs[0]), pol) for g, pol in cfgc.guards(lapse[0].id)]
         good = ("market_book.status == 'SUSPENDED'", True) in gs and \
             ("self.order.order_type.persistence_type == 'LAPSE'", True) in gs and \
-            ("market_book.version != self.market_version", True) in gs
+            gp("market_book.version != self.market_version") in gs
         nxt = [cfgc.nodes[m] for l, m in lapse[0].succ]
         good = good and all(x.kind == "return" for x in nxt)
     rep.check(good, "R3", key(ca, None, "lapse on a suspended material change empties the remainder and stops matching"), ca)
